@@ -533,11 +533,13 @@ def assign(s, target, value, env, ctx, k):
         return let(cq, v, k(e2))
     if isinstance(target, ast.Attribute) and isinstance(target.value, ast.Name) and target.value.id in env.structs:
         key = mod.struct_field(env.structs[target.value.id], target.value.id, target.attr, s)
-        v, t = expr(env, value, env.vars[key][1])
-        if t != env.vars[key][1]:
-            raise Unsupported(s, 'store of a %s into field %s of type %s' % (t, key, env.vars[key][1]))
-        e2.vars[key] = (env.vars[key][0], t)
-        return let(env.vars[key][0], v, k(e2))
+        ftype = mod.structs[env.structs[target.value.id]][key.split('.')[1]]
+        fname = '%s_%s' % (cname(key.split('.')[0]), cname(key.split('.')[1]))
+        v, t = expr(env, value, ftype)
+        if t != ftype:
+            raise Unsupported(s, 'store of a %s into field %s of type %s' % (t, key, ftype))
+        e2.vars[key] = (fname, t)
+        return let(fname, v, k(e2))
     if isinstance(target, ast.Tuple):
         if not all(isinstance(t, ast.Name) for t in target.elts):
             raise Unsupported(s, 'tuple assignment to something other than names')
@@ -704,10 +706,12 @@ def if_stmt(s, rest, env, ctx, tail):
             a = block(s.body, et, sub, out)
             b = block(s.orelse, ee, sub, out)
         e2 = env.fork()
+        def mname(v):
+            return '_'.join(cname(x) for x in v.split('.'))
         for v in merged:
-            e2.vars[v] = (cname(v.replace('.', '_')), types[v])
+            e2.vars[v] = (mname(v), types[v])
             e2.funopts.pop(v, None)
-        names = [cname(v.replace('.', '_')) for v in merged]
+        names = [mname(v) for v in merged]
         pat = names[0] if len(names) == 1 else "'(%s)" % ', '.join(names)
         return let(pat, wrap(a, b), k(e2))
     # effectful, non-leaving branches: the if is a sub-computation of its own effect class
